@@ -88,6 +88,9 @@ class ExcelCompiler:
         self.graph_todos = []
         self.range_todos = []
 
+        # stored formula results are only valid until a value is changed
+        self._values_changed = False
+
         self.extra_data = None
         self.conditional_formats = {}
         self._formula_cells_dict = {}
@@ -454,6 +457,7 @@ class ExcelCompiler:
                 isinstance(old_value, bool) != isinstance(value, bool)):
             # need to be able to 'set' an empty cell, set to not None
             cell_or_range.value = 0 if value is None else value
+            self._values_changed = True
 
             # reset the node + its dependencies
             if not self.cycles:
@@ -722,7 +726,11 @@ class ExcelCompiler:
             self.graph_todos.append(node)
 
         def build_cell(excel_cell):
-            a_cell = self.Cell(excel_cell.address, value=excel_cell.values,
+            value = excel_cell.values
+            if self._values_changed and excel_cell.formula:
+                # stored results are not valid after inputs have been changed
+                value = None
+            a_cell = self.Cell(excel_cell.address, value=value,
                                formula=excel_cell.formula, excel=self.excel)
             self.cell_map[str(excel_cell.address)] = a_cell
             return [a_cell]
@@ -735,6 +743,8 @@ class ExcelCompiler:
             if isinstance(excel_range.formula, tuple):
                 for addr, value, formula in a_range.cells_to_build(excel_range):
                     if addr.address not in self.cell_map:
+                        if self._values_changed and formula:
+                            value = None
                         a_cell = self.Cell(addr, value, formula, self.excel)
                         self.cell_map[addr.address] = a_cell
                         added.append(a_cell)
